@@ -10,6 +10,27 @@ CHECKS = {
     "C01": ("4/C01", "history monitor with unique payloads over a controlled in-memory transport (all read chunkings); ASan + Miri passes",
             "Thousands of real run_on executions per run: command sequences with position-dependent unique payloads (1 B .. 2*(2^24-1)+5000 B) under adversarial read schedules (1-byte reads, reads ending after 1/2/3 header bytes, on packet boundaries, spanning several commands); the ordered callback list must equal the framed command list byte for byte. Exploration, not proof: the quantifier over chunkings is sampled by class.",
             "wire.rs framing is the reference; >=16 MiB payloads use coarse reads away from fragment boundaries"),
+    "C02": ("4/C02", "model-vs-log monitor: reference routing model against the complete ordered shim callback log",
+            "Random command sequences over all nine command kinds with adversarial texts (near-misses of the built-in prefixes, every USE spelling the property lists, invalid UTF-8, random 32-bit ids); the whole callback list and run_on's outcome must equal the reference model's. Exploration by seeded generation over text classes.",
+            "model.rs encodes the routing rules exactly as the property states them; spellings outside the stated domain are not generated"),
+    "C03": ("4/C03", "trace-specification monitor: sequential reference response decoder + sentinel PING after every command + program-denotation comparison",
+            "Exhaustive small scope of writer-API programs (all programs with up to 2 (thorough: 3) chained sets, <=2 rows, 0..2 columns, every finalisation form, text and binary) plus random larger programs, built-ins, database switches incl. the default on_init, PREPARE ok/error and one shape contradiction per program; every response must decode under the EOF-terminated 4.1 grammar, equal the program's denotation and leave the sentinel PING's reply unshifted.",
+            "sequence ids are not part of C03's acceptance (C05's); dropping a never-used writer is documented misuse and not generated"),
+    "C05": ("4/C05", "invariant check on every outbound packet header, exchanges delimited by the client script; both arithmetic profiles",
+            "Every request id 0..255 for every command kind and for the handshake, responses of up to ~750 packets (wrap-around at least twice), multi-packet requests, random conversations with random ids: each outbound id must be previous+1 mod 256 starting at last-request-id+1.",
+            "cases whose output does not decode are skipped and counted (C03/C04 judge those)"),
+    "C10": ("4/C10", "exhaustive short histories + random long ones against the statement-registry model; sentinel PINGs for the no-reply clauses",
+            "All histories of length <=5 (thorough: <=6) over {PREPARE id1/id2/rejected, EXECUTE, LONG_DATA, CLOSE} x 2 ids (a history ends at its first illegal operation) plus random histories of length <=60 over 4 ids; callback log, run_on outcome and reply alignment are compared with the model.",
+            "model.rs registry rules are the property's; parameter values are small (C08 covers decoding)"),
+    "C12": ("4/C12", "assertion evaluated inside the transport at every read(): no unflushed bytes, no owed replies; deadlock events under lock-step / k-deep pipelined arrival",
+            "Rich conversations under scripted arrival with every read-schedule class, lock-step and pipelined (depth 2,3,5) arrival, short writes; at every read() the flushed output must already contain a complete response for every fully received reply-expecting exchange. Logical time only.",
+            "visibility model: bytes are visible to the client only after flush() on the transport"),
+    "C16": ("4/C16", "history monitor against the per-statement bound-types model; client encodes values per the model",
+            "Histories of executions over 3 statements with different parameter counts, each execution independently rebinding (fresh random types) or reusing; values are chosen so that a one-byte shift or a foreign type changes the decoded value; the shim's parameter list is compared with the model.",
+            "first execution after (re)PREPARE always rebinds (anything else is malformed input, C20)"),
+    "C17": ("4/C17", "history monitor against the long-data accumulation model, unique chunk contents",
+            "Interleavings of long-data chunks (sizes 0/1/random, one multi-packet chunk) over 3 statements x 4 parameter indexes with executions, double executions and out-of-range indexes; every execution's parameter list is compared with the model (concatenation in arrival order, delivered once, never to another statement).",
+            "parameters supplied by long data carry no inline bytes, as the protocol prescribes"),
 }
 
 PENDING = {
